@@ -18,7 +18,7 @@ import pandas as pd
 # --------------------------------------------------------------------------
 # tables
 
-COL_KINDS = ("int_dup", "int_uniq", "float_nan", "float", "bool", "str_none", "str", "cat", "dt")
+COL_KINDS = ("int_dup", "int_uniq", "float_nan", "float", "bool", "str_none", "str", "cat", "dt", "int_mono")
 INDEX_KINDS = ("range", "int_sorted", "int_unsorted", "float_sorted", "str_sorted", "dt_sorted")
 _WORDS = ["ab", "cd", "ef", "gh", "ij", "kl", "mn", "op"]
 
@@ -28,6 +28,8 @@ def make_column(kind, n, rs: np.random.Generator):
         return rs.integers(0, max(3, n // 3), size=n)
     if kind == "int_uniq":
         return rs.permutation(n)
+    if kind == "int_mono":
+        return np.sort(rs.integers(0, max(4, n), size=n))
     if kind == "float":
         return rs.integers(-8, 24, size=n) / 4.0
     if kind == "float_nan":
@@ -127,6 +129,15 @@ def src_block(i, spec=None, nblocks=1, columns=None):
 
 def src_block_plain(i, spec=None, nblocks=1):
     return src_block(i, spec=spec, nblocks=nblocks)
+
+
+EPOCH = 0  # external mutable state read by src_block_epoch (a "file that somebody rewrote")
+
+
+def src_block_epoch(i, spec=None, nblocks=1):
+    sp = dict(spec)
+    sp["seed"] = spec["seed"] + EPOCH
+    return src_block(i, spec=sp, nblocks=nblocks)
 
 
 def udf_add_const(df, c=1):
@@ -291,6 +302,10 @@ def build_op(op, pool, tables, use_knobs=True):
         n = op["nblocks"]
         fn = src_block if op.get("projectable", True) else src_block_plain
         return dx.from_map(fn, list(range(n)), spec=spec, nblocks=n)
+    if o == "from_map_epoch":
+        spec = tables[op["table"]]
+        n = op["nblocks"]
+        return dx.from_map(src_block_epoch, list(range(n)), spec=spec, nblocks=n)
     if o == "from_delayed":
         spec = tables[op["table"]]
         n = op["nblocks"]
@@ -492,6 +507,8 @@ def build_op(op, pool, tables, use_knobs=True):
         if fn == "nunique":
             so = _kn(op, use_knobs, "split_out")
             return y.nunique(**kw) if so is None else y.nunique(split_out=so, **kw)
+        if fn in ("var", "std") and "ddof" in op:
+            kw["ddof"] = op["ddof"]
         return getattr(y, fn)(**kw)
     if o == "len":
         return dx.new_collection(dx._reductions.Len(x.expr))
@@ -557,6 +574,8 @@ def build_op(op, pool, tables, use_knobs=True):
             kw["meta"] = x._meta
         if op.get("with_divisions", True) and x.known_divisions:
             kw["divisions"] = x.divisions
+        if op.get("prefix"):
+            kw["prefix"] = op["prefix"]
         return dx.from_delayed(parts, **kw)
     if o == "legacy_roundtrip":
         return dx.from_legacy_dataframe(x.to_legacy_dataframe())
@@ -745,7 +764,7 @@ def gen_tables(rng: random.Random, n_tables=None, max_rows=64, idx_kinds=None):
                 if t == 1 and key_kind == "int_dup" and rng.random() < 0.25:
                     k = "float"  # int keys on one side, float on the other
             elif nm == "b":
-                k = rng.choice(["int_dup", "float_nan", "str_none", "int_uniq"])
+                k = rng.choice(["int_dup", "float_nan", "str_none", "int_uniq", "int_mono"])
             else:
                 k = rng.choice(COL_KINDS)
             cols[nm] = k
@@ -795,6 +814,9 @@ class Generator:
         # ndarrays through their pickle header, which changes when such a view is pickled and reloaded
         # (known finding KF-C16-ndarray-operand-token): profiles comparing names across a pickle switch it off
         self.allow_sample = True
+        # persisted partitions are often views (iloc slices); same tokenizer sensitivity once pickled
+        self.allow_persist = True
+        self.source_kinds = ("from_pandas", "from_pandas", "from_pandas", "from_map", "from_delayed", "from_array")
         self.suspects = 0
 
     # -- helpers -------------------------------------------------------------
@@ -883,7 +905,8 @@ class Generator:
         self.next_id += 1
         return m
 
-    def add_source(self, table=None, kinds=("from_pandas", "from_pandas", "from_pandas", "from_map", "from_delayed", "from_array")):
+    def add_source(self, table=None, kinds=None):
+        kinds = kinds or self.source_kinds
         rng = self.rng
         tname = table or rng.choice(sorted(self.tables))
         spec = self.tables[tname]
@@ -903,6 +926,9 @@ class Generator:
             return self.try_add(op, "defined", "defined", self.next_id, spec["index"])
         if kind == "from_map":
             op = {"op": "from_map", "table": tname, "nblocks": nparts, "projectable": rng.random() < 0.7}
+            return self.try_add(op, "defined", "defined", self.next_id, spec["index"])
+        if kind == "from_map_epoch":
+            op = {"op": "from_map_epoch", "table": tname, "nblocks": nparts}
             return self.try_add(op, "defined", "defined", self.next_id, spec["index"])
         if kind == "from_delayed":
             op = {"op": "from_delayed", "table": tname, "nblocks": nparts, "with_meta": rng.random() < 0.8}
@@ -1278,6 +1304,8 @@ class Generator:
                 return None
             if fn in ("min", "max") and kind not in ("int", "float", "dt"):
                 return None
+        if fn in ("var", "std") and self.rng.random() < 0.5:
+            op["ddof"] = self.rng.choice([0, 1, 2])
         self._kn(op, ["split_every"])
         return self.try_add(op, "defined", "defined", self.next_id, None)
 
@@ -1345,6 +1373,8 @@ class Generator:
         if not m:
             return None
         r = self.rng.random()
+        if not self.allow_persist:
+            r = 0.45 + r * 0.55
         if r < 0.45:
             op = {"op": "persist", "src": m.id, "fuse": self.rng.random() < 0.7}
         elif r < 0.8:
@@ -1417,14 +1447,28 @@ class Generator:
         """Clone an earlier single-source op changing exactly one parameter and
         put original and clone into one graph (binop / concat): key prefixes that
         ignore a distinguishing operand collide there."""
-        cands = [op for op in self.recipe["ops"] if op["op"] in self._TWIN_PARAMS or op["op"] in ("series_map", "map_partitions")]
+        cands = [op for op in self.recipe["ops"] if op["op"] in self._TWIN_PARAMS or op["op"] in ("series_map", "map_partitions", "sort_values", "set_index",
+                                                                                               "groupby_agg", "merge", "drop_duplicates", "value_counts", "reduce")]
         cands = [op for op in cands if op["id"] in self.members]
         if not cands:
             return None
         op = self.rng.choice(cands)
         m = self.members[op["id"]]
         clone = {k: v for k, v in op.items() if k != "id"}
-        if op["op"] == "repartition" and op.get("partition_size"):
+        if op["op"] == "sort_values" and self.rng.random() < 0.6:
+            clone["ascending"] = not op.get("ascending", True)
+        elif op["op"] in ("sort_values", "set_index", "groupby_agg", "merge", "drop_duplicates", "value_counts", "shuffle") and op.get("knob_names"):
+            # same query, one knob different (cache keys must contain every knob the cached value depends on)
+            kn = dict(op.get("knobs") or {})
+            name = self.rng.choice(op["knob_names"])
+            space = [v for v in self.knob_space.get(name, []) if v != kn.get(name)]
+            if not space:
+                return None
+            kn[name] = self.rng.choice(space)
+            clone["knobs"] = kn
+        elif op["op"] == "reduce" and op.get("fn") in ("var", "std"):
+            clone["ddof"] = {0: 1, 1: 0, 2: 1}.get(op.get("ddof", 1), 0)
+        elif op["op"] == "repartition" and op.get("partition_size"):
             sizes = [x for x in ["100B", "200B", "300B", "500B", "1kiB"] if x != op["partition_size"]]
             clone["partition_size"] = self.rng.choice(sizes)
         elif op["op"] == "series_map":
@@ -1435,10 +1479,12 @@ class Generator:
             if "c" not in (op.get("kwargs") or {}):
                 return None
             clone["kwargs"] = {"c": op["kwargs"]["c"] + 1}
-        else:
+        elif op["op"] in self._TWIN_PARAMS:
             key, space = self._TWIN_PARAMS[op["op"]]
             alt = [v for v in space if v != op.get(key, 1)]
             clone[key] = self.rng.choice(alt)
+        else:
+            return None
         m2 = self.try_add(clone, m.order, m.labels, m.root if op["op"] not in ("head", "tail", "shuffle") else self.next_id, m.index_kind)
         if m2 is None:
             return None
